@@ -18,8 +18,8 @@ ID = "C10"
 CASES = {"quick": 2400, "thorough": 30000}
 FLOOR = {"quick": 1800, "thorough": 22000}
 FLOOR_COUNTERS = {
-    "quick": {"alphas_judged": 9000, "fold_captures": 1800, "rank_deficient_fits": 350, "r2_fits": 400, "explicit_cv_fits": 400, "n_jobs_2_fits": 10, "one_dimensional_targets": 200, "estimators_with_a_past": 700, "integer_typed_features": 150, "non_default_containers": 1000, "configured_by:set_params": 200, "configured_by:setattr": 200, "configured_by:clone": 200, "cutoffs_exactly_on_a_singular_value": 80, "stateful_random_generators": 300},
-    "thorough": {"alphas_judged": 110000, "fold_captures": 22000, "rank_deficient_fits": 4000, "r2_fits": 5000, "explicit_cv_fits": 5000, "n_jobs_2_fits": 100, "one_dimensional_targets": 2500, "estimators_with_a_past": 9000, "integer_typed_features": 2000, "non_default_containers": 12000, "configured_by:set_params": 2500, "configured_by:setattr": 2500, "configured_by:clone": 2500, "cutoffs_exactly_on_a_singular_value": 1000, "stateful_random_generators": 4000},
+    "quick": {"alphas_judged": 9000, "fold_captures": 1800, "rank_deficient_fits": 350, "r2_fits": 400, "explicit_cv_fits": 400, "n_jobs_2_fits": 10, "one_dimensional_targets": 200, "estimators_with_a_past": 700, "integer_typed_features": 150, "non_default_containers": 1000, "configured_by:set_params": 200, "configured_by:setattr": 200, "configured_by:clone": 200, "cutoffs_exactly_on_a_singular_value": 80, "stateful_random_generators": 300, "rejected_calls_in_the_history": 400, "folds_from_the_seeded_global_generator": 150},
+    "thorough": {"alphas_judged": 110000, "fold_captures": 22000, "rank_deficient_fits": 4000, "r2_fits": 5000, "explicit_cv_fits": 5000, "n_jobs_2_fits": 100, "one_dimensional_targets": 2500, "estimators_with_a_past": 9000, "integer_typed_features": 2000, "non_default_containers": 12000, "configured_by:set_params": 2500, "configured_by:setattr": 2500, "configured_by:clone": 2500, "cutoffs_exactly_on_a_singular_value": 1000, "stateful_random_generators": 4000, "rejected_calls_in_the_history": 5000, "folds_from_the_seeded_global_generator": 2000},
 }
 RULE = (
     "case = X (tall / wide / exactly rank-deficient through duplicated or combined columns / column-scaled; largest "
@@ -79,9 +79,9 @@ def gen(rng, tier, index):
             alphas[0] = 0.0
     if p == 1 and rng.random() < 0.5:
         Y = Y[:, 0].copy()  # a single target given as a 1-D array
-    cvk = gens.pick(rng, ("none", "default", "shuffle", "pairs", "pairs_unequal", "kfold", "int", "shuffle_rs", "kfold_rs"))
+    cvk = gens.pick(rng, ("none", "default", "shuffle", "pairs", "pairs_unequal", "kfold", "int", "shuffle_rs", "kfold_rs", "global_seed"))
     cv = {"kind": cvk}
-    if cvk in ("shuffle", "shuffle_rs", "kfold_rs"):
+    if cvk in ("shuffle", "shuffle_rs", "kfold_rs", "global_seed"):
         cv["seed"] = int(rng.integers(1000))
         cv["n_splits"] = 2
     elif cvk in ("pairs", "pairs_unequal"):
@@ -111,6 +111,7 @@ def gen(rng, tier, index):
         "xform": gens.pick(rng, forms.PRESENT),
         "yform": gens.pick(rng, forms.PRESENT),
         "carry": gens.pick(rng, forms.CARRY),
+        "aborted_fit": int(rng.integers(1, 6)) if rng.random() < 0.3 else 0,
         "past": bool(rng.random() < 0.4),  # the estimator object has been fitted before, with another configuration
         "pseed": int(rng.integers(1 << 30)),
         "Z": rng.normal(size=(5, m)) * float(np.abs(X).std()),
@@ -154,6 +155,8 @@ def _cv_object(cv, n):
         return None, {"shuffle": False}, KFold(n_splits=2, shuffle=False)
     if k == "default":  # shuffle=True, random_state=None: the folds are random, the captured ones are used
         return None, {}, None
+    if k == "global_seed":  # shuffle=True, random_state=None, np.random.seed(s) by the caller: the folds follow from s
+        return None, {}, KFold(n_splits=2, shuffle=True, random_state=np.random.RandomState(cv["seed"]))
     if k == "shuffle":
         return None, {"shuffle": True, "random_state": cv["seed"]}, KFold(n_splits=2, shuffle=True, random_state=cv["seed"])
     if k == "shuffle_rs":  # a stateful generator: the folds are the FIRST split drawn from its state at fit time
@@ -256,6 +259,23 @@ def run(case, j):
     def pre(self, a, k):
         seen["f1"], seen["f2"] = np.array(a[2], copy=True), np.array(a[3], copy=True)
 
+    if case.get("aborted_fit") and case["cv"]["kind"] not in ("shuffle_rs", "kfold_rs"):  # (an aborted fit would advance a stateful generator)
+        # a failure in the history: the same object, configured as it will be, but with a user scorer that raises on its
+        # k-th call (an interrupted fit); the scorer is then corrected and the fit repeated
+        calls = [0]
+
+        def flaky(estimator, X_, y_):
+            calls[0] += 1
+            if calls[0] >= case["aborted_fit"]:
+                raise RuntimeError("scoring aborted (simulated)")
+            return 0.0
+
+        est.scoring = flaky
+        forms.rejected(j, "fit aborted inside the user's scorer", est.fit, Xin, Yin)
+        est.scoring = scoring
+    if case["cv"]["kind"] == "global_seed":
+        np.random.seed(case["cv"]["seed"])
+        j.note("folds_from_the_seeded_global_generator")
     cnt = [0]
     with rt.hook_method(Ridge2FoldCV, "_2fold_cv", pre=pre, counter=cnt):
         j.lib("fit", est.fit, Xin, Yin)
